@@ -16,6 +16,8 @@ META = {
     "trusted_base": ["summary: 1 << cds_lfht_get_count_order_ulong(x) is the least power of two >= x (so it is Pow2, equals x when x is Pow2 and stays <= a Pow2 bound)"],
 }
 
+META["explanation"] += " " + 'Also: bucket placement of a grow compares the cursor node, partition work items and the inline fallback cover the level exactly, and the resize loop terminates under destroy (if a helper can bail out before moving size the loop re-tests the flag each round).'
+
 AG_FIELDS = ("cds_lfht.size", "cds_lfht.max_nr_buckets", "cds_lfht.resize_target", "cds_lfht.min_nr_alloc_buckets")
 
 
